@@ -1,6 +1,7 @@
 """C15 - nonlinear system solvers only claim success at an actual solution.
 
 Systems  F(x) = M d + a tanh(N d) * |d| + b d^3 (+ c),  d = x - x*   (root at x* when c = 0)
+         first-order form x = (u, v): F = (B (v - v*), C (u - u*) + b (u - u*)^3) - regular Jacobian with zero diagonal
          no-root systems: F(x) = x^2 + 1 (componentwise), and  F(x) = M x + c with singular M and c outside its range.
 Solvers  nonlinear_roots (float32/float64 -> MINPACK path, longdouble -> built-in dogleg -> Newton trust region),
          hybrj and newtontrustregion called directly; with and without an analytic Jacobian; shapes (), (n,), (a, b).
@@ -32,9 +33,11 @@ def _case(draw):
     dtype = draw(st.sampled_from(["float64", "float64", "float32", "longdouble"]))
     shape = draw(st.sampled_from(SHAPES if dtype != "longdouble" else SHAPES[:5] + [[2, 2]]))
     n = int(np.prod(shape)) if shape else 1
-    fam = draw(st.sampled_from(["root", "root", "root", "noroot_square", "noroot_inconsistent", "singular_root"]))
+    fam = draw(st.sampled_from(["root", "root", "root", "noroot_square", "noroot_inconsistent", "singular_root", "zero_diag"]))
     if n == 1 and fam == "noroot_inconsistent":
         fam = "noroot_square"
+    if fam == "zero_diag" and n % 2:
+        fam = "root"
     mat = st.lists(st.lists(_fr, min_size=n, max_size=n), min_size=n, max_size=n)
     Mx = draw(mat)
     if fam == "root":
@@ -85,11 +88,25 @@ class System(object):
         elif fam == "noroot_inconsistent":
             out = Mx @ v
             out = out + np.concatenate([np.zeros(self.n - 1, dtype=dtype), np.ones(1, dtype=dtype)])  # last two rows equal, rhs differs
+        elif fam == "zero_diag":
+            # first-order form of a second-order system, x = (u, v):  F = (B (v - v*), C (u - u*) + b (u - u*)^3): regular
+            # Jacobian with an exactly zero diagonal (the dogleg's initial trust region max|diag J| vanishes)
+            m = self.n // 2
+            d = v - xs
+            Bm, Cm = self._blocks(dtype)
+            T = dtype.type
+            out = np.concatenate([Bm @ d[m:], Cm @ d[:m] + T(self.case["b"]) * d[:m] ** 3])
         else:
             d = v - xs
             T = dtype.type
             out = Mx @ d + T(self.case["a"]) * np.tanh(Nx @ d) * np.abs(d) + T(self.case["b"]) * d ** 3
         return out.reshape(self.shape).astype(dtype, copy=False)
+
+    def _blocks(self, dtype):
+        Mx, Nx, xs, cc = self._c(dtype)
+        m = self.n // 2
+        eye = np.eye(m, dtype=dtype)
+        return Mx[:m, :m] + 6 * eye, Nx[:m, :m] + 6 * eye
 
     def J(self, x):
         x = np.asarray(x)
@@ -101,6 +118,14 @@ class System(object):
             return np.diag(2 * v)
         if fam == "noroot_inconsistent":
             return Mx.copy()
+        if fam == "zero_diag":
+            m = self.n // 2
+            d = v - xs
+            Bm, Cm = self._blocks(dtype)
+            Jm = np.zeros((self.n, self.n), dtype=dtype)
+            Jm[:m, m:] = Bm
+            Jm[m:, :m] = Cm + dtype.type(self.case["b"]) * np.diag(3 * d[:m] ** 2)
+            return Jm
         d = v - xs
         T = dtype.type
         th = np.tanh(Nx @ d)
@@ -127,7 +152,7 @@ def check(case):
     far = float(np.max(np.abs(case["start"]))) >= 5
     singular = case["fam"] in ("singular_root", "noroot_inconsistent")
     noroot = case["fam"].startswith("noroot")
-    nontrivial = far or singular or noroot or case["dtype"] == "longdouble"
+    nontrivial = far or singular or noroot or case["dtype"] == "longdouble" or case["fam"] == "zero_diag"
     attrs = dict(solver=solver, dtype=case["dtype"], family=case["fam"])
     sig = "{}:{}:{}".format(solver, "ld" if case["dtype"] == "longdouble" else "hw", "noroot" if noroot else "root")
     import warnings
